@@ -53,6 +53,8 @@ class Conc:
         self.cf, self.funit, self.cbw = cf, funit, cbw
         self.cplx, self.real, self.dask, self.chunks, self.extra = cplx, real, dask, chunks, tuple(extra)
         self.assign = False
+        self.qdtype = None
+        self.npint = None
         self.name = name or "r=%g%s,ep=%s,cf=%g%s,%s" % (rate, runit, epoch and epoch.isot, cf, funit,
                                                           "dask" if dask else "np")
 
@@ -70,7 +72,13 @@ class Conc:
 EPOCHS = [Time("2020-01-01T00:00:00", format="isot", precision=9),
           Time(58849.123456789, format="mjd"),
           Time(50000, format="mjd"),      # not before 1972: pre-1972 UTC has rubber seconds
-          Time("2031-07-14T23:59:59.999999", format="isot", precision=9)]
+          Time("2031-07-14T23:59:59.999999", format="isot", precision=9),
+          # legal scales outside the UTC / TAI family (appended: generated cases index the first four)
+          Time("2015-03-03T03:03:03.25", format="isot", scale="tcb", precision=9),
+          Time(57023.75, format="mjd", scale="tdb"),
+          Time("2024-02-29T12:00:00", format="isot", scale="tai", precision=9),
+          Time(55555.5, format="mjd", scale="tcg")]
+CONC_EPOCHS = [0, 4, 1, 5, 2, 6, 3, 7]     # order in which concretisations take them (other scales early)
 
 
 def concs(n, rnd, dask_ok=True):
@@ -86,10 +94,14 @@ def concs(n, rnd, dask_ok=True):
         r = rates[i % len(rates)] if i < len(rates) else rnd.choice(rates)
         c = cfs[(i + off) % len(cfs)]
         b = cbws[(i + off // 7) % len(cbws)]
-        out.append(Conc(r[0], r[1], EPOCHS[i % len(EPOCHS)], c[0], c[1], cbw=b,
+        out.append(Conc(r[0], r[1], EPOCHS[CONC_EPOCHS[i % len(CONC_EPOCHS)]], c[0], c[1], cbw=b,
                         cplx=rnd.choice(["complex128", "complex64"]), real=rnd.choice(["float64", "float32"]),
                         dask=dask_ok and (i % 3 == 2), extra=rnd.choice([(), (), (2,), (1, 3)])))
         out[-1].assign = (i % 2 == 1)        # every other concretisation builds its root by assignment
+        # argument forms: frequency Quantities held as int64 / float32 (where the value is representable),
+        # integer slice bounds given as NumPy integers
+        out[-1].qdtype = [None, "int", None, "f4", None][(i + off) % 5]
+        out[-1].npint = [None, np.int64, None, np.int32, np.intp, None, np.uint8][(i + off // 3) % 7]
         if out[-1].assign:
             out[-1].name += ",by-assignment"
     return out
@@ -197,6 +209,15 @@ def build_root(root, conc):
             kw["chan_bw"] = conc.cbw[0] * conc.cbw[1]
     if cls == "DualPolarizationSignal":
         kw["pol_type"] = "linear"
+    if getattr(conc, "qdtype", None):
+        for k in ("center_freq", "chan_bw"):
+            if k in kw:
+                q = kw[k]
+                if conc.qdtype == "int" and float(q.value) == int(q.value) and abs(q.value) < 2 ** 31:
+                    kw[k] = u.Quantity(int(q.value), q.unit, dtype=np.int64)
+                elif conc.qdtype == "f4" and k == "center_freq" and float(np.float32(q.value)) == float(q.value):
+                    # (centre frequency only: a float32 chan_bw makes the library's own band arithmetic float32)
+                    kw[k] = u.Quantity(q.value, q.unit, dtype=np.float32)
     if getattr(conc, "assign", False):
         return by_assignment(lambda **k: CLASSES[cls](z, **k), kw)
     return CLASSES[cls](z, **kw)
